@@ -95,6 +95,10 @@ func (msg *PackedForwardMessage) DecodeMsg(dc *msgp.Reader) error {
 		return msgp.WrapError(err, "Array Header")
 	}
 
+	if sz != 2 && sz != 3 {
+		return msgp.ArrayError{Wanted: 3, Got: sz}
+	}
+
 	if msg.Tag, err = dc.ReadString(); err != nil {
 		return msgp.WrapError(err, "Tag")
 	}
@@ -126,6 +130,10 @@ func (msg *PackedForwardMessage) UnmarshalMsg(bits []byte) ([]byte, error) {
 
 	if sz, bits, err = msgp.ReadArrayHeaderBytes(bits); err != nil {
 		return bits, msgp.WrapError(err, "Array Header")
+	}
+
+	if sz != 2 && sz != 3 {
+		return bits, msgp.ArrayError{Wanted: 3, Got: sz}
 	}
 
 	if msg.Tag, bits, err = msgp.ReadStringBytes(bits); err != nil {
